@@ -326,6 +326,25 @@ func build(s *core.Shard, i int) *Case {
 	if l2part != nil {
 		files[0] = append(files[0], decomp.KVp{K: l2name, V: withExtends(l2part, extRef(k), r.Intn(8))})
 	}
+	// a member spells `build` in its short form and a later member carries a tag *inside* build
+	// (`build: {context: !reset …}`): recorded finding (the tag path finds no mapping to act on)
+	shortBuildAt := -1
+	for j := 0; j <= k; j++ {
+		if parts[j] == nil || parts[j].Sub["build"] == nil {
+			continue
+		}
+		b := parts[j].Sub["build"]
+		if shortBuildAt >= 0 {
+			for _, sub := range b.Sub {
+				if sub != nil && sub.Tag != "" {
+					c.Input = "tag-inside-build-over-a-short-form-build"
+				}
+			}
+		}
+		if _, isString := b.Render().(string); isString {
+			shortBuildAt = j
+		}
+	}
 
 	// main documents: the model with L (and the second extender) replaced
 	mainDoc := func(flat bool) string {
